@@ -85,9 +85,14 @@ Theorem C01_comparison_operators : forall a b,
   cmp_num clean Gt a b = (b <? a) /\ cmp_num clean Gte a b = (b <=? a) /\ cmp_num clean Lt a b = (a <? b) /\ cmp_num clean Lte a b = (a <=? b).
 Proof. exact cmp_meaning. Qed.
 Print Assumptions C01_comparison_operators.
-Theorem C01_between : forall bl s l x a b, beval clean bl s l (BBetween x a b) = true <->
-  Z.min (fst (neval bl s l a)) (fst (neval bl s l b)) < fst (neval bl s l x) < Z.max (fst (neval bl s l a)) (fst (neval bl s l b)).
+Theorem C01_between : forall bl s l x a b, floatable (nvalue bl s l x) = true -> floatable (nvalue bl s l a) = true -> floatable (nvalue bl s l b) = true ->
+  (beval clean bl s l (BBetween x a b) = true <->
+  Z.min (fst (neval bl s l a)) (fst (neval bl s l b)) < fst (neval bl s l x) < Z.max (fst (neval bl s l a)) (fst (neval bl s l b))).
 Proof. exact between_meaning. Qed.
+Theorem C01_between_none : forall bl s l x a b, is_vnone (nvalue bl s l x) || is_vnone (nvalue bl s l a) || is_vnone (nvalue bl s l b) = true ->
+  beval clean bl s l (BBetween x a b) = false.
+Proof. exact between_none. Qed.
+Print Assumptions C01_between_none.
 Print Assumptions C01_between.
 Theorem C01_nonnumeric_cells : forall bl s l o a c,
   is_vnone (nvalue bl s l a) = false -> is_vnone (nvalue bl s l c) = false ->
